@@ -3,6 +3,7 @@
 package app
 
 import (
+	"fmt"
 	"sync"
 	"sync/atomic"
 	"time"
@@ -184,13 +185,14 @@ func (p *ProjectRunner) verifProber(name string, kind string) *health.Prober {
 	return proc.readyProber
 }
 
-// VerifProberStopEpoch returns the number of effective Stop() calls on the prober of `name` (-1: none).
-func (p *ProjectRunner) VerifProberStopEpoch(name string, kind string) int64 {
+// VerifProberStopEpoch identifies the prober object of `name` and returns the number of effective
+// Stop() calls on it ("" when there is none).
+func (p *ProjectRunner) VerifProberStopEpoch(name string, kind string) (string, int64) {
 	prober := p.verifProber(name, kind)
 	if prober == nil {
-		return -1
+		return "", -1
 	}
-	return prober.VerifStopEpoch()
+	return fmt.Sprintf("%p", prober), prober.VerifStopEpoch()
 }
 
 // VerifRegistries returns the names currently present in the running and done registries.
